@@ -10,9 +10,9 @@ cd "$wt"
 {
 echo "== base $(git rev-parse --short HEAD) patch $patch"
 cp "$demo" tests/demo_seed.rs
-echo "-- demo WITHOUT change:"; cargo test --offline --test demo_seed 2>&1 | grep -E "^test result|panicked|error\[" | head -5
+echo "-- demo WITHOUT change:"; cargo test --offline ${SEED_FEATURES:+--features $SEED_FEATURES} --test demo_seed 2>&1 | grep -E "^test result|panicked|error\[" | head -5
 git apply "$patch" || echo "APPLY FAILED"
-echo "-- demo WITH change:"; cargo test --offline --test demo_seed 2>&1 | grep -E "^test result|error\[" | head -5
+echo "-- demo WITH change:"; cargo test --offline ${SEED_FEATURES:+--features $SEED_FEATURES} --test demo_seed 2>&1 | grep -E "^test result|error\[" | head -5
 rm tests/demo_seed.rs
 echo "-- suite WITH change:"; cargo test --workspace --no-fail-fast --offline 2>&1 | grep -E "^test result|^test .*FAILED" | head -12
 } > "$out" 2>&1
